@@ -137,9 +137,9 @@ Proof. exact accepted_is_signed_content. Qed.
 Print Assumptions C01_returns_only_signed_content.
 
 (* The monitor the correspondence check evaluates on the implementation's answers is the
-   boolean form of the statements above: it is true of the model itself, so it can only fire on
-   a case where the implementation departs from the model (entry point ParseXMLResponse). *)
+   boolean form of the statements above: it is true of the model itself, for both entry points,
+   so it can only fire on a case where the implementation departs from the model. *)
 Theorem C01_monitor_holds_of_model :
-  forall c, pc_entry c = 0 -> spcase_agree c = true -> c01_spec c = true.
-Proof. exact c01_monitor. Qed.
+  forall c, spcase_agree c = true -> c01_spec c = true.
+Proof. intros c H. destruct (monitors_hold_of_model c H) as [M _]; exact M. Qed.
 Print Assumptions C01_monitor_holds_of_model.
